@@ -6,7 +6,8 @@ written item; a written, not yet transferred item keeps valid high; write execut
 being emptied) run in a BMC from reset; a one-step relation from FREE registers (valid, payload: every value reachable)
 characterises the one-slot buffer for all histories.
 StreamSink: `i.valid`/`i.payload` free pins; read runs iff enabled and valid, returns the payload, `i.ready` is high
-exactly when read runs (so peek alone never consumes), peek runs only when valid and returns the payload.
+exactly when read runs (so peek alone never consumes), peek runs only when valid and returns the payload; with two
+callers of `read` a transferred item is consumed by exactly one of them (and both callers of `peek` may look at it).
 StreamModuleWrapper: wrapped around two trivial pass-through stream modules (wires; one register stage); the monitors
 run on the module's own `i` and `o` interfaces (what the wrapped module sees is a correct producer and consumer) and
 end-to-end (k-th read returns the k-th written item).
@@ -27,7 +28,7 @@ BOUNDS = {
 }
 OUTSIDE = ["payload shapes other than the enumerated ones", "wrapped modules other than the two pass-through modules (the wrapper itself contains no logic besides source and sink)",
            "histories longer than the BMC bound for the wrapper", "eventual acceptance of writes (liveness)"]
-ASSUMES = ["single clock domain, reset held low", "callers are AdapterTrans transactions (one per method)",
+ASSUMES = ["single clock domain, reset held low", "callers are AdapterTrans transactions (one per method; two per method for the StreamSink two-caller configuration)",
            "the stream consumer/producer pins are free per cycle (a producer that violates the protocol is allowed for StreamSink, which is stateless)"]
 W = 8
 
@@ -42,6 +43,7 @@ def configs(tier, seed):
         out.append(dict(comp="source", mode="bmc", shape=sh, K=K))
         out.append(dict(comp="source", mode="step", shape=sh))
         out.append(dict(comp="sink", shape=sh))
+        out.append(dict(comp="sink2", shape=sh))
         for mod in ("wire", "reg"):
             out.append(dict(comp="wrapper", module=mod, shape=sh, K=K))
     return out
@@ -93,6 +95,11 @@ def make(cfg):
     if cfg["comp"] == "sink":
         d = StreamSink(shape)
         return Harness(d, {"read": d.read, "peek": d.peek}, inputs={"valid": d.i.valid, "payload": Value.cast(d.i.payload)}, observe=lambda d: {"ready": d.i.ready})
+    if cfg["comp"] == "sink2":
+        # two independent callers of read and of peek (AdapterTrans transactions on the same method)
+        d = StreamSink(shape)
+        return Harness(d, {"read": d.read, "read2": d.read, "peek": d.peek, "peek2": d.peek},
+                       inputs={"valid": d.i.valid, "payload": Value.cast(d.i.payload)}, observe=lambda d: {"ready": d.i.ready})
     mod = _module(cfg["module"], shape)
     d = StreamModuleWrapper(mod)
     obs = lambda d: {"mi_valid": mod.i.valid, "mi_ready": mod.i.ready, "mi_payload": Value.cast(mod.i.payload),
@@ -205,6 +212,25 @@ def run(cfg, ctx):
         obs += [("peek runs only when valid", z3.Implies(o.done("peek"), z3.And(o.en("peek"), valid))),
                 ("peek returns the payload", z3.Implies(o.done("peek"), o.out("peek") == payload)),
                 ("peek without read does not consume (ready low)", z3.Implies(z3.Not(o.done("read")), z3.Not(ready)))]
+        for lab, goal in obs:
+            ctx.prove(name + lab, [], goal, u)
+    elif comp == "sink2":
+        u = Unroll(b)
+        o = u.cycle()
+        ctx.frames += 1
+        valid, payload, ready = o.sig("valid") == 1, o.sig("payload"), o.sig("ready") == 1
+        r1, r2 = o.done("read"), o.done("read2")
+        name = f"StreamSink shape={cfg['shape']}, two callers of read and of peek: "
+        ctx.witness(name + "both readers enabled, one runs", [o.en("read"), o.en("read2"), z3.Or(r1, r2)])
+        ctx.witness(name + "both peeks run with a read", [o.done("peek"), o.done("peek2"), z3.Or(r1, r2)])
+        obs = [("a transferred item is consumed by exactly one reader (the two reads never run together)", z3.Not(z3.And(r1, r2))),
+               ("some enabled reader runs iff valid", z3.Or(r1, r2) == z3.And(z3.Or(o.en("read"), o.en("read2")), valid)),
+               ("a reader runs only when enabled", z3.And(z3.Implies(r1, o.en("read")), z3.Implies(r2, o.en("read2")))),
+               ("the stream transfer happens exactly when a read runs", ready == z3.Or(r1, r2)),
+               ("the running reader returns the payload", z3.And(z3.Implies(r1, o.out("read") == payload), z3.Implies(r2, o.out("read2") == payload))),
+               ("peeks run iff enabled and valid (non-exclusive), return the payload",
+                z3.And(o.done("peek") == z3.And(o.en("peek"), valid), o.done("peek2") == z3.And(o.en("peek2"), valid),
+                       z3.Implies(o.done("peek"), o.out("peek") == payload), z3.Implies(o.done("peek2"), o.out("peek2") == payload)))]
         for lab, goal in obs:
             ctx.prove(name + lab, [], goal, u)
     else:
